@@ -27,7 +27,9 @@ def run_lemma(lem, args):
         return None
     except (AssertionError, api.ContractViolation) as e:
         return NativeFail("lemma %s fails natively" % lem.name, {p: repr(a) for (p, _), a in zip(lem.params, args)}, repr(e))
-    except RecursionError:
+    except (RecursionError, MemoryError, OverflowError):
+        # a resource limit of this native run (e.g. `1 << n` for a sampled 64-bit n under the child's address-space cap),
+        # not a statement about the lemma: the input is skipped
         return None
     except Exception as e:
         return NativeFail("lemma %s raises %s natively" % (lem.name, type(e).__name__), {p: repr(a) for (p, _), a in zip(lem.params, args)}, repr(e))
